@@ -159,4 +159,88 @@ theorem no_partial_result (env : Env N) (data : Row N) (q : Query N) :
   | ok v => exact .inl ⟨v, rfl⟩
   | error e => exact .inr ⟨e, rfl⟩
 
+/-! ### a numeric aggregate over a value that is no number fails (it is not read as 0) -/
+
+/-- a value `ToFloat64` refuses: a boolean, an object, an array -/
+def NotNumeric : Val N → Prop
+  | .bool _ => True
+  | .arr _ => True
+  | .obj _ => True
+  | _ => False
+
+/-- no member is a text (texts go through `ParseFloat`, which the model does not predict: out of model) -/
+def NoText (xs : List (Val N)) : Prop := ∀ x ∈ xs, ∀ s, x ≠ .str s
+
+theorem toFloat64_notNumeric (v : Val N) (h : NotNumeric v) : toFloat64 v = .error .error := by
+  cases v <;> simp_all [NotNumeric, toFloat64]
+
+/-- SUM / AVG: one boolean, object or array among the members fails the whole aggregate, wherever it stands and whatever the
+    other members add up to -/
+theorem sumLoop_notNumeric (xs : List (Val N)) (acc : Option N) (hn : NoText xs) (hb : ∃ x ∈ xs, NotNumeric x) :
+    sumLoop xs acc = .error .error := by
+  induction xs generalizing acc with
+  | nil => obtain ⟨x, hx, _⟩ := hb; cases hx
+  | cons y ys ih =>
+    have hn' : NoText ys := fun x hx => hn x (List.mem_cons_of_mem _ hx)
+    cases y with
+    | null =>
+      simp only [sumLoop]
+      obtain ⟨x, hx, hxn⟩ := hb
+      rcases List.mem_cons.mp hx with rfl | hx'
+      · cases hxn
+      · exact ih acc hn' ⟨x, hx', hxn⟩
+    | num n =>
+      simp only [sumLoop, toFloat64, bind, Except.bind]
+      obtain ⟨x, hx, hxn⟩ := hb
+      rcases List.mem_cons.mp hx with rfl | hx'
+      · cases hxn
+      · exact ih _ hn' ⟨x, hx', hxn⟩
+    | str s => exact absurd rfl (hn (.str s) (by simp) s)
+    | bool b => simp [sumLoop, toFloat64, bind, Except.bind]
+    | arr a => simp [sumLoop, toFloat64, bind, Except.bind]
+    | obj o => simp [sumLoop, toFloat64, bind, Except.bind]
+
+/-- MIN / MAX likewise -/
+theorem minLoop_notNumeric (better : N → N → Bool) (xs : List (Val N)) (acc : Option N) (hn : NoText xs)
+    (hb : ∃ x ∈ xs, NotNumeric x) : minLoop better xs acc = .error .error := by
+  induction xs generalizing acc with
+  | nil => obtain ⟨x, hx, _⟩ := hb; cases hx
+  | cons y ys ih =>
+    have hn' : NoText ys := fun x hx => hn x (List.mem_cons_of_mem _ hx)
+    cases y with
+    | null =>
+      simp only [minLoop]
+      obtain ⟨x, hx, hxn⟩ := hb
+      rcases List.mem_cons.mp hx with rfl | hx'
+      · cases hxn
+      · exact ih acc hn' ⟨x, hx', hxn⟩
+    | num n =>
+      simp only [minLoop, toFloat64, bind, Except.bind]
+      obtain ⟨x, hx, hxn⟩ := hb
+      rcases List.mem_cons.mp hx with rfl | hx'
+      · cases hxn
+      · exact ih _ hn' ⟨x, hx', hxn⟩
+    | str s => exact absurd rfl (hn (.str s) (by simp) s)
+    | bool b => simp [minLoop, toFloat64, bind, Except.bind]
+    | arr a => simp [minLoop, toFloat64, bind, Except.bind]
+    | obj o => simp [minLoop, toFloat64, bind, Except.bind]
+
+/-- the four numeric aggregates as the engine calls them (`callBody`, after the arity guard): over members of which one is a
+    boolean / object / array (and none a text) each of them is an error -/
+theorem numeric_aggregate_type_error (cnt : Bool) (f : String) (hf : f = "sum" ∨ f = "avg" ∨ f = "min" ∨ f = "max")
+    (star : Option (List (Val N))) (fromLen : Nat) (xs : List (Val N)) (hn : NoText xs) (hb : ∃ x ∈ xs, NotNumeric x) :
+    callBody cnt f star fromLen [.arr xs] = .error .error := by
+  rcases hf with rfl | rfl | rfl | rfl <;>
+    simp [callBody, asSlice, sumLoop_notNumeric xs none hn hb, minLoop_notNumeric _ xs none hn hb, bind, Except.bind]
+
+/-- `CHANGETYPE(x, 'double')` of a boolean, object or array is an error as well (the same `ToFloat64`) -/
+theorem changetype_double_notNumeric (cnt : Bool) (star : Option (List (Val N))) (fromLen : Nat) (x : Val N)
+    (h : NotNumeric x) : callBody cnt "changetype" star fromLen [x, .str "double"] = .error .error := by
+  have hl : lowerStr "double" = "double" := by decide
+  cases x <;> simp_all [NotNumeric, callBody]
+
+example : callBody (N := Int) false "sum" none 0 [.arr [.num 1, .null, .bool true, .num 2]] = .error .error :=
+  numeric_aggregate_type_error false "sum" (.inl rfl) none 0 _ (by intro x hx s; simp at hx; rcases hx with rfl | rfl | rfl | rfl <;> simp)
+    ⟨.bool true, by simp, trivial⟩
+
 end Genql.C19
